@@ -6,6 +6,7 @@
 -/
 import Gts.Props.C15
 import Gts.Lemmas.CliSplitCirc
+import Gts.Lemmas.CliExtractFeat
 namespace Gts.C15
 open Gts Loc Reg
 
@@ -244,5 +245,281 @@ example : (Cli.split loc2 true s1).map (fun pc => (pc.feats.filter (·.key = "ge
       [[[(5, true), (4, true), (3, true), (1, true), (8, true)]], [[(0, true)]], [[(0, true)]]] ∧
     filterMapPos (Cli.cwinMap s1.len 5 2) gene1.loc.den =
       [(5, true), (4, true), (3, true), (1, true), (8, true)] := by decide
+
+/-! ## extract: features
+
+`Cli.extract` writes `r.Locate(seq)` (`Reg.locate`) for every region `r` of `Cli.extractRegs` (the
+de-duplicated located regions, with `-v` their linear complement; `extract_regs_filter`).
+`Region.Locate` slices the record once per LEAF segment of the region tree (`gts.Slice`, for a
+backward segment followed by `gts.Complement` and `gts.Reverse`) and concatenates the results
+(`gts.Concat`); a feature of the input is therefore present once per leaf whose window it overlaps:
+its PIECES `Cli.locPieces` (`Gts/Lemmas/CliExtractFeat.lean`), each with its leaf, the offset of the
+leaf in the emitted record, its location and the K2 guard of the steps that made it. -/
+
+/-- **`gts extract`, the feature table of every emitted record** (region inside the record): up to
+the order `FeatureSlice.Insert` gives it, it consists of exactly the pieces of the input's
+features — one feature per input feature and overlapped leaf segment, nothing else. -/
+theorem extract_feats_perm (locs : List (Seq → List Reg)) (invert : Bool) (s : Seq)
+    (r : Reg) (hr : r ∈ Cli.extractRegs locs invert s) (hwr : within s.len r) :
+    r.locate s ∈ Cli.extract locs invert s ∧
+    (r.locate s).feats.Perm
+      (s.feats.flatMap fun f => (Cli.locPieces s.len f r).map (Cli.pieceFeat f)) :=
+  ⟨List.mem_map_of_mem (f := fun r => r.locate s) hr, Cli.locate_feats_perm s r hwr⟩
+
+/-- … in particular every feature of an emitted record is a piece of a feature of the input, with
+that feature's key and qualifiers -/
+theorem extract_feature_origin (s : Seq) (r : Reg) (hwr : within s.len r)
+    (f' : Feature) (hf' : f' ∈ (r.locate s).feats) :
+    ∃ f ∈ s.feats, ∃ p ∈ Cli.locPieces s.len f r,
+      f'.key = f.key ∧ f'.props = f.props ∧ f'.loc = p.loc := by
+  have h := (Cli.locate_feats_perm s r hwr).subset hf'
+  obtain ⟨f, hf, hm⟩ := List.mem_flatMap.mp h
+  obtain ⟨p, hp, rfl⟩ := List.mem_map.mp hm
+  exact ⟨f, hf, p, hp, rfl, rfl, rfl⟩
+
+/-- **which pieces**: a feature has one piece per leaf segment of the region tree (left to right)
+that passes the `Overlap` filter of `gts.Slice`, and the offset of a piece is the total length of
+the leaves in front of its leaf (`Cli.leafOffs`) — which is where the residues of that leaf lie in
+`Reg.den r`, i.e. (C05 `region_locate_bytes`) in the emitted record. -/
+theorem extract_pieces_leaves (L : Int) (f : Feature) (r : Reg) :
+    (Cli.locPieces L f r).map Cli.Piece.key =
+      (Cli.leafOffs r 0).filter (fun lo => Cli.segOverlap f lo.1.1 lo.1.2) ∧
+    ∀ lo ∈ Cli.leafOffs r 0, ∃ pre post,
+      Reg.den r = pre ++ Reg.den (seg lo.1.1 lo.1.2) ++ post ∧ (pre.length : Int) = lo.2 :=
+  ⟨Cli.locPieces_keys L f r, fun lo hlo => by
+    obtain ⟨pre, post, h1, h2⟩ := Cli.leafOffs_den r 0 lo hlo
+    exact ⟨pre, post, h1, by omega⟩⟩
+
+/-- FULL STATEMENT of the feature clause for `gts extract` (no K2 guard): false today through known
+finding K2 inside `Join` — the well-formed, duplicate-free `join(4..6,7)` (0-based residues 3,4,5,6)
+on a 10-residue record, extracted with the region `1..8`, comes out as `4..6`: residue 6 is lost
+(`Expand` re-`Join`s the parts and `Push` drops a point pushed after a range ending at it). -/
+theorem extract_features_full_refuted :
+    ¬ (∀ (s : Seq) (r : Reg) (f : Feature), within s.len r → f ∈ s.feats → f.loc.wf = true →
+        Loc.coordsWithin f.loc s.len = true →
+        ∀ p ∈ Cli.locPieces s.len f r,
+          p.loc.den ≼ mapPos (· + p.off) (Cli.segPull p.leaf.1 p.leaf.2 f.loc.den)) := by
+  intro h
+  have hov : Cli.segOverlap ⟨"gene", .joined [.ranged 3 6 false false, .point 6], []⟩ 0 8 = true := by decide
+  have := (h ⟨[⟨"gene", .joined [.ranged 3 6 false false, .point 6], []⟩], [97, 99, 103, 116, 97, 99, 103, 116, 97, 99]⟩
+    (seg 0 8) ⟨"gene", .joined [.ranged 3 6 false false, .point 6], []⟩ (by decide)
+    (List.mem_singleton.mpr rfl) (by decide) (by decide)
+    ⟨(0, 8), 0, Cli.segFeatLoc ⟨"gene", .joined [.ranged 3 6 false false, .point 6], []⟩ 0 8 10,
+      Cli.segAbs ⟨"gene", .joined [.ranged 3 6 false false, .point 6], []⟩ 0 8 10⟩
+    (by simp only [Cli.locPieces, hov, if_true]; exact List.mem_singleton.mpr rfl)).2
+    (6, false) (by decide)
+  revert this
+  decide
+
+/-- **`gts extract`, every feature, every emitted record** (the last sentence of the property for
+extract): let `r` be one of the regions extract emits — a forward segment, a backward segment or
+a composite region of any nesting, with `-v` an inverted one — with every end of every leaf
+inside the record, and `f` a feature of the input (location well-formed, coordinates inside the
+record).  For every piece `p` of `f` (one per leaf segment `(h, t) = p.leaf` of `r` the feature
+overlaps, `extract_pieces_leaves`) the emitted record `r.Locate(seq)` — which IS one of the written
+records — has a feature with `f`'s key and qualifiers and the location `p.loc`, and that location
+denotes EXACTLY the residues of `f` that lie inside the leaf, at their position in the emitted
+record and on the strand relative to the leaf (`Cli.segPull`, then the offset `p.off` of the leaf):
+input residue `x` of a forward leaf is at `p.off + x - h` on the same strand, of a backward leaf
+(reverse-complemented) at `p.off + h - 1 - x` on the opposite strand; order kept.  Composition of
+C03 (`Slice`: `sliceLoc_den`), C05 (`Complement`, `Reverse`: `reverse_mirror`) and C10 (`Concat`:
+`Expand(0, offset)` translates).  Guard: K2 in none of these steps (`p.abs`, folded along the
+region tree like `Cli.delAbs` along the delete loop); without it the statement is
+`extract_features_full_refuted`. -/
+theorem extract_features_partial (locs : List (Seq → List Reg)) (invert : Bool) (s : Seq)
+    (r : Reg) (hr : r ∈ Cli.extractRegs locs invert s) (hwr : within s.len r)
+    (f : Feature) (hf : f ∈ s.feats) (hw : f.loc.wf = true)
+    (hcw : Loc.coordsWithin f.loc s.len = true)
+    (p : Cli.Piece) (hp : p ∈ Cli.locPieces s.len f r) (hg : p.abs = false) :
+    r.locate s ∈ Cli.extract locs invert s ∧
+    p.key ∈ Cli.leafOffs r 0 ∧ Cli.segOverlap f p.leaf.1 p.leaf.2 = true ∧
+    ∃ f' ∈ (r.locate s).feats, f'.key = f.key ∧ f'.props = f.props ∧ f'.loc = p.loc ∧
+      f'.loc.den ≼ mapPos (· + p.off) (Cli.segPull p.leaf.1 p.leaf.2 f.loc.den) := by
+  rw [Loc.coordsWithin_eq] at hcw
+  have hk : p.key ∈ (Cli.locPieces s.len f r).map Cli.Piece.key := List.mem_map_of_mem hp
+  rw [Cli.locPieces_keys] at hk
+  obtain ⟨hk1, hk2⟩ := List.mem_filter.mp hk
+  refine ⟨List.mem_map_of_mem (f := fun r => r.locate s) hr, hk1, hk2, Cli.pieceFeat f p, ?_, rfl, rfl, rfl, ?_⟩
+  · apply (Cli.locate_feats_perm s r hwr).symm.subset
+    exact List.mem_flatMap.mpr ⟨f, hf, List.mem_map_of_mem hp⟩
+  · exact (Cli.locPieces_ok s.len f hw hcw r hwr p hp).2.2.2 hg
+
+/-- … with EQUALITY for duplicate-free locations (every real feature). -/
+theorem extract_features_eq_partial (locs : List (Seq → List Reg)) (invert : Bool) (s : Seq)
+    (r : Reg) (hr : r ∈ Cli.extractRegs locs invert s) (hwr : within s.len r)
+    (f : Feature) (hf : f ∈ s.feats) (hw : f.loc.wf = true)
+    (hcw : Loc.coordsWithin f.loc s.len = true) (hnd : f.loc.den.Nodup)
+    (p : Cli.Piece) (hp : p ∈ Cli.locPieces s.len f r) (hg : p.abs = false) :
+    ∃ f' ∈ (r.locate s).feats, f'.key = f.key ∧ f'.props = f.props ∧ f'.loc = p.loc ∧
+      f'.loc.den = mapPos (· + p.off) (Cli.segPull p.leaf.1 p.leaf.2 f.loc.den) := by
+  obtain ⟨_, _, _, f', h1, h2, h3, h4, h5⟩ := extract_features_partial locs invert s r hr hwr f hf hw hcw p hp hg
+  refine ⟨f', h1, h2, h3, h4, h5.eq_of_nodup ?_⟩
+  apply Cli.nodup_mapPos _ _ (fun x x' h => by omega)
+  unfold Cli.segPull
+  refine List.Pairwise.filterMap _ ?_ hnd
+  intro a a' hne b hb b' hb' hbb
+  apply hne
+  cases ha : Cli.segMap p.leaf.1 p.leaf.2 a.1 with
+  | none => simp [ha] at hb
+  | some y =>
+    cases ha' : Cli.segMap p.leaf.1 p.leaf.2 a'.1 with
+    | none => simp [ha'] at hb'
+    | some y' =>
+      simp only [ha, Option.map_some, Option.some.injEq] at hb
+      simp only [ha', Option.map_some, Option.some.injEq] at hb'
+      subst hb; subst hb'
+      have e1 : y = y' := (Prod.mk.inj hbb).1
+      have e2 := (Prod.mk.inj hbb).2
+      subst e1
+      apply Prod.ext
+      · unfold Cli.segMap at ha ha'
+        split at ha <;> split at ha <;> split at ha' <;> simp_all <;> omega
+      · by_cases c : p.leaf.2 < p.leaf.1 <;> simp [c] at e2 <;> exact e2
+
+/-- **`gts extract`: the pieces of a feature denote every one of its residues inside the region** —
+for every leaf segment `lo.1 = (h, t)` of an emitted region (at offset `lo.2`) and every residue `q`
+of a feature that lies inside that leaf (`Cli.segMap h t q.1 = some y`), the feature has a piece for
+that leaf, the emitted record contains it (same key and qualifiers), and — K2 guard of the piece —
+its location denotes the residue at position `lo.2 + y` of the emitted record, on the strand relative
+to the leaf. -/
+theorem extract_features_cover_partial (s : Seq) (r : Reg) (hwr : within s.len r)
+    (f : Feature) (hf : f ∈ s.feats) (hw : f.loc.wf = true)
+    (hcw : Loc.coordsWithin f.loc s.len = true)
+    (lo : Seg × Int) (hlo : lo ∈ Cli.leafOffs r 0) (q : Pos) (hq : q ∈ f.loc.den) (y : Int)
+    (hm : Cli.segMap lo.1.1 lo.1.2 q.1 = some y) :
+    ∃ p ∈ Cli.locPieces s.len f r, p.key = lo ∧
+      ∃ f' ∈ (r.locate s).feats, f'.key = f.key ∧ f'.props = f.props ∧ f'.loc = p.loc ∧
+        (p.abs = false → (lo.2 + y, if lo.1.2 < lo.1.1 then !q.2 else q.2) ∈ f'.loc.den) := by
+  have hov : Cli.segOverlap f lo.1.1 lo.1.2 = true := by
+    unfold Cli.segOverlap
+    unfold Cli.segMap at hm
+    by_cases c : lo.1.2 < lo.1.1
+    · rw [if_pos c] at hm ⊢
+      split at hm
+      · rename_i hx
+        exact Cli.overlap_of_den f.loc _ _ hw q hq hx.1 hx.2
+      · cases hm
+    · rw [if_neg c] at hm ⊢
+      split at hm
+      · rename_i hx
+        exact Cli.overlap_of_den f.loc _ _ hw q hq hx.1 hx.2
+      · cases hm
+  have hk : lo ∈ (Cli.locPieces s.len f r).map Cli.Piece.key := by
+    rw [Cli.locPieces_keys]
+    exact List.mem_filter.mpr ⟨hlo, hov⟩
+  obtain ⟨p, hp, hpk⟩ := List.mem_map.mp hk
+  refine ⟨p, hp, hpk, Cli.pieceFeat f p, ?_, rfl, rfl, rfl, ?_⟩
+  · apply (Cli.locate_feats_perm s r hwr).symm.subset
+    exact List.mem_flatMap.mpr ⟨f, hf, List.mem_map_of_mem hp⟩
+  · intro hg
+    rw [Loc.coordsWithin_eq] at hcw
+    have hden := (Cli.locPieces_ok s.len f hw hcw r hwr p hp).2.2.2 hg
+    apply hden.2
+    have e1 : p.leaf = lo.1 := congrArg Prod.fst hpk
+    have e2 : p.off = lo.2 := congrArg Prod.snd hpk
+    rw [e1, e2]
+    simp only [mapPos, Cli.segPull, List.mem_map, List.mem_filterMap]
+    refine ⟨(y, if lo.1.2 < lo.1.1 then !q.2 else q.2), ⟨q, hq, by rw [hm]; rfl⟩, ?_⟩
+    apply Prod.ext
+    · simp only; omega
+    · rfl
+
+/-- **`gts extract`, in INPUT coordinates** (what the oracle of the harness decides): position `k` of
+the emitted record is input residue `(Reg.den r)[k]` (C05 `region_locate_bytes`), so an emitted
+feature residue `(k, strand)` stands for input position `(Reg.den r)[k].1` on the strand
+`(Reg.den r)[k].2` flipped by `strand` (`Cli.backPos`).  Read back like this, the emitted feature
+denotes exactly the residues of the input feature that lie inside the leaf — same positions, same
+strands, same order (`≼`: up to dropped repetitions; `=` for duplicate-free locations). -/
+theorem extract_features_back_partial (s : Seq) (r : Reg) (hwr : within s.len r)
+    (f : Feature) (hf : f ∈ s.feats) (hw : f.loc.wf = true)
+    (hcw : Loc.coordsWithin f.loc s.len = true)
+    (p : Cli.Piece) (hp : p ∈ Cli.locPieces s.len f r) (hg : p.abs = false) :
+    ∃ f' ∈ (r.locate s).feats, f'.key = f.key ∧ f'.props = f.props ∧ f'.loc = p.loc ∧
+      f'.loc.den.filterMap (Cli.backPos (Reg.den r)) ≼
+        (f.loc.den.filter fun q => (Cli.segMap p.leaf.1 p.leaf.2 q.1).isSome) ∧
+      (f.loc.den.Nodup → f'.loc.den.filterMap (Cli.backPos (Reg.den r)) =
+        f.loc.den.filter fun q => (Cli.segMap p.leaf.1 p.leaf.2 q.1).isSome) := by
+  rw [Loc.coordsWithin_eq] at hcw
+  have hb := Cli.piece_back s.len f hw hcw r hwr p hp hg
+  refine ⟨Cli.pieceFeat f p, ?_, rfl, rfl, rfl, hb, fun hnd => hb.eq_of_nodup (hnd.filter _)⟩
+  apply (Cli.locate_feats_perm s r hwr).symm.subset
+  exact List.mem_flatMap.mpr ⟨f, hf, List.mem_map_of_mem hp⟩
+
+/-- **`gts extract`: every emitted feature reads, in the emitted record, the residues the input
+feature read in the input** (residue-level corollary; `Gts.readAt`: the byte at the position,
+complemented on the complement strand) — for a duplicate-free feature location, the residues the
+piece reads from `r.Locate(seq)`, in order, are the residues the feature reads from the input at
+its positions inside the leaf, in order; up to U → T, because a residue of a complement-strand
+feature extracted through a backward segment is complemented twice. -/
+theorem extract_features_residues_partial (s : Seq) (r : Reg) (hwr : within s.len r)
+    (f : Feature) (hf : f ∈ s.feats) (hw : f.loc.wf = true)
+    (hcw : Loc.coordsWithin f.loc s.len = true) (hnd : f.loc.den.Nodup)
+    (p : Cli.Piece) (hp : p ∈ Cli.locPieces s.len f r) (hg : p.abs = false) :
+    ∃ f' ∈ (r.locate s).feats, f'.key = f.key ∧ f'.props = f.props ∧ f'.loc = p.loc ∧
+      f'.loc.den.map (fun q => uToT (Gts.readAt (r.locate s).bytes q)) =
+        (f.loc.den.filter fun q => (Cli.segMap p.leaf.1 p.leaf.2 q.1).isSome).map
+          (fun q => uToT (Gts.readAt s.bytes q)) := by
+  obtain ⟨f', h1, h2, h3, h4, _, h6⟩ := extract_features_back_partial s r hwr f hf hw hcw p hp hg
+  refine ⟨f', h1, h2, h3, h4, ?_⟩
+  rw [← h6 hnd]
+  apply Cli.map_eq_of_filterMap
+  intro q hq
+  rw [Loc.coordsWithin_eq] at hcw
+  have hden := (Cli.locPieces_ok s.len f hw hcw r hwr p hp).2.2.2 hg
+  have hk : p.key ∈ Cli.leafOffs r 0 := by
+    have : p.key ∈ (Cli.locPieces s.len f r).map Cli.Piece.key := List.mem_map_of_mem hp
+    rw [Cli.locPieces_keys] at this
+    exact (List.mem_filter.mp this).1
+  rw [h4] at hq
+  obtain ⟨p0, _, hb⟩ := Cli.segPull_back_some r p.key hk f.loc.den q (hden.1.subset hq)
+  exact ⟨p0, hb, Cli.readAt_back r s hwr q p0 hb⟩
+
+/-! ### non-vacuity (extract) -/
+
+/-- a composite region: a backward segment, then a nested composite of two forward segments -/
+def rE : Reg := many [seg 9 5, many [seg 0 3, seg 10 12]]
+
+/-- two locators; the second repeats a region of the first -/
+def locsE : List (Seq → List Reg) := [fun _ => [rE, seg 2 7], fun _ => [seg 2 7]]
+
+/-- hypotheses of `extract_features_partial` / `…_eq_partial` / `…_cover_partial` / `…_back_partial` /
+`…_residues_partial` for the complement-strand join `gene1` of the 12-residue record `s1`
+(`Gts/Props/C15.lean`; 0-based residues 10,9,8 | 6 | 3,2,1) and the region `rE`, which extract emits
+(first of the two de-duplicated regions) -/
+example : Cli.extractRegs locsE false s1 = [rE, seg 2 7] := by rfl
+example : rE ∈ Cli.extractRegs locsE false s1 := by
+  rw [show Cli.extractRegs locsE false s1 = [rE, seg 2 7] from rfl]; exact List.mem_cons_self ..
+example : within s1.len rE ∧ gene1.loc.wf = true ∧ Loc.coordsWithin gene1.loc s1.len = true ∧
+    gene1.loc.den.Nodup ∧
+    Cli.leafOffs rE 0 = [((9, 5), 0), ((0, 3), 4), ((10, 12), 7)] ∧
+    (Cli.locPieces s1.len gene1 rE).map (fun p => (p.leaf, p.off, p.abs)) =
+      [((9, 5), 0, false), ((0, 3), 4, false), ((10, 12), 7, false)] := by decide
+/-- … and what they give: residues 8 and 6 lie in the backward leaf `(9, 5)` (emitted positions 0
+and 2, now on the forward strand), 2 and 1 in the leaf `(0, 3)` (offset 4: positions 6, 5), 10 in
+the leaf `(10, 12)` (offset 7) — and these are the locations of the three `gene` features of the
+emitted record `TACGACGGT` -/
+example : (Cli.locPieces s1.len gene1 rE).map
+      (fun p => mapPos (· + p.off) (Cli.segPull p.leaf.1 p.leaf.2 gene1.loc.den)) =
+      [[(0, false), (2, false)], [(6, true), (5, true)], [(7, true)]] ∧
+    (Cli.locPieces s1.len gene1 rE).map (·.loc.den) =
+      [[(0, false), (2, false)], [(6, true), (5, true)], [(7, true)]] ∧
+    ((rE.locate s1).feats.filter (·.key = "gene")).map (·.loc.den) =
+      [[(0, false), (2, false)], [(6, true), (5, true)], [(7, true)]] ∧
+    (rE.locate s1).bytes = [84, 65, 67, 71, 65, 67, 71, 71, 84] := by decide
+/-- read back through the region (`Cli.backPos (Reg.den rE)`), the three pieces denote the residues
+of `gene1` inside the three leaves, on their original (complement) strand -/
+example : Reg.den rE = [(8, true), (7, true), (6, true), (5, true), (0, false), (1, false), (2, false),
+      (10, false), (11, false)] ∧
+    (Cli.locPieces s1.len gene1 rE).map (fun p => p.loc.den.filterMap (Cli.backPos (Reg.den rE))) =
+      [[(8, true), (6, true)], [(2, true), (1, true)], [(10, true)]] ∧
+    (Cli.locPieces s1.len gene1 rE).map
+        (fun p => gene1.loc.den.filter fun q => (Cli.segMap p.leaf.1 p.leaf.2 q.1).isSome) =
+      [[(8, true), (6, true)], [(2, true), (1, true)], [(10, true)]] := by decide
+/-- `-v`: the only stretch no located region covers is `[9, 10)`; it is emitted with its piece of
+`gene1` -/
+example : (Cli.extractRegs locsE true s1).map Reg.leaves = [[(9, 10)]] ∧
+    (Cli.locPieces s1.len gene1 (seg 9 10)).map (fun p => (p.leaf, p.off, p.abs, p.loc.den)) =
+      [((9, 10), 0, false, [(0, true)])] :=
+  ⟨by simp only [Cli.extractRegs, invertLinear_eq, minimize_eq]; decide, by decide⟩
 
 end Gts.C15
